@@ -82,6 +82,8 @@ func lenOf(v ssa.Value) (ssa.Value, bool) {
 func checkC08(p *Program, r *Report) {
 	c08Rules(p, r)
 	c08DrainOnce(p, r)
+	c08CompressWrites(p, r)
+	c06OnlyRefusal(p, r)
 	// a segment encoded with compression must be decodable by the same codec: both sides follow the
 	// same framing for every payload length, including the empty payload (shared with C06)
 	ws, _ := analyseSegmentWriter(p)
@@ -316,6 +318,19 @@ func growthLoopSound(n ssa.Value, src ssa.Value) (string, bool) {
 	if !isLen || !sameSlice(x, src) {
 		return "growth loop bound is not a multiple of len(src)", false
 	}
+	// no other test of the buffer size may cut the growth short
+	for _, ref := range *phi.Referrers() {
+		if other, ok := ref.(*ssa.BinOp); ok && other != bo {
+			switch other.Op {
+			case token.LSS, token.LEQ, token.GTR, token.GEQ, token.EQL, token.NEQ:
+				for _, r2 := range *other.Referrers() {
+					if _, isIf := r2.(*ssa.If); isIf {
+						return fmt.Sprintf("besides the bound %s x len(src) the buffer size is also tested against %s: the growth can stop before the buffer reaches LZ4's maximum expansion of the source, and data that compresses well is not decompressed", M, describeVal(otherOperand(other, phi))), false
+					}
+				}
+			}
+		}
+	}
 	// largest attempted multiple
 	m := new(big.Int).Set(m0)
 	cont := func(v *big.Int) bool {
@@ -415,6 +430,77 @@ func c08DrainOnce(p *Program, r *Report) {
 					r.OKf("drain-once", key, c.Pos(), "the drained reader is not read again")
 				}
 			}
+		}
+	}
+}
+
+func otherOperand(bo *ssa.BinOp, v ssa.Value) ssa.Value {
+	if bo.X == v {
+		return bo.Y
+	}
+	return bo.X
+}
+
+// c08CompressWrites: every successful return of a Compress* method has written to its destination:
+// even the empty input has a compressed form (a length prefix and/or a one-byte block) that the
+// matching Decompress* expects to find.
+func c08CompressWrites(p *Program, r *Report) {
+	for _, fn := range p.ModuleFuncs() {
+		if fn.Pkg == nil || !strings.HasPrefix(shortPkg(fn.Pkg.Pkg), "compression") || !strings.HasPrefix(fn.Name(), "Compress") || fn.Signature.Recv() == nil || len(fn.Blocks) == 0 {
+			continue
+		}
+		// the destination: the io.Writer parameter
+		var dest *ssa.Parameter
+		for _, pp := range fn.Params {
+			if types.TypeString(pp.Type(), nil) == "io.Writer" {
+				dest = pp
+			}
+		}
+		if dest == nil {
+			continue
+		}
+		// blocks containing a call that receives dest (dest.Write, binary.Write(dest,..), helper(dest))
+		writes := map[*ssa.BasicBlock]bool{}
+		for _, ref := range *dest.Referrers() {
+			var ins ssa.Instruction
+			switch x := ref.(type) {
+			case *ssa.Call:
+				ins = x
+			case *ssa.MakeInterface:
+				for _, r2 := range *x.Referrers() {
+					if c, ok := r2.(*ssa.Call); ok {
+						writes[c.Block()] = true
+					}
+				}
+			}
+			if ins != nil {
+				writes[ins.Block()] = true
+			}
+		}
+		key := fnKey(fn)
+		bad := ""
+		for _, b := range fn.Blocks {
+			ret, ok := b.Instrs[len(b.Instrs)-1].(*ssa.Return)
+			if !ok || len(ret.Results) == 0 {
+				continue
+			}
+			if k, ok := ret.Results[len(ret.Results)-1].(*ssa.Const); !ok || k.Value != nil {
+				continue // an error return (or a forwarded error)
+			}
+			dominated := false
+			for wb := range writes {
+				if wb == b || wb.Dominates(b) {
+					dominated = true
+				}
+			}
+			if !dominated {
+				bad = fmt.Sprintf("%s: a successful return is reached without anything having been written to the destination: the compressed form of that input (even of the empty input) is missing and cannot be decompressed", p.pos(ret.Pos()))
+			}
+		}
+		if bad != "" {
+			r.Fail("compress-writes", key, fn.Pos(), "%s", bad)
+		} else {
+			r.OKf("compress-writes", key, fn.Pos(), "every success return follows a write to the destination")
 		}
 	}
 }
